@@ -846,6 +846,9 @@ LABEL_SETS = collections.OrderedDict([
                      ["nexus", "nexus-simple", "phylip-strict", "phylip-strict-il", "fasta", "fasta-nowrap", "nexml", "nexml-seqs"])),
     ("inner-space-multispace-reader", (["t 1", "t 2", "uv"], ["phylip-relaxed-ms"])),
     ("symbol-like", (["ACGT", "N", "01"], None)),
+    # interior non-blank whitespace is not a delimiter of relaxed PHYLIP (only blank and TAB are)
+    ("unicode-space", (["a\u00a0b", "a\u2009b", "a\u3000b"], ["phylip-relaxed", "phylip-relaxed-il", "phylip-relaxed-nomissing"])),
+    ("unicode-control", (["\u00e9", "a\u001fb", "z"], ["phylip-relaxed", "phylip-relaxed-il", "phylip-relaxed-nomissing"])),
 ])
 
 MULTISTATE_ROWS = {
